@@ -1,5 +1,7 @@
 #!/usr/bin/env python3
 """Regenerate the tables of DESIGN.md section 9 from /verif/seeded/*/meta.json and /verif/seeded/selftest.json."""
+import re as _re
+EQUIV = set(_re.findall(r'"(m\w+)"', _re.search(r'EQUIVALENT = \{([^}]*)\}', open('/verif/tools/selftest.py').read()).group(1)))
 import glob, json, os, re
 V = os.path.dirname(os.path.dirname(os.path.abspath(__file__)))
 rows = []
@@ -23,9 +25,9 @@ if os.path.exists(p):
             lines.append(f"| {k} | {v['check']} | {v['file']} | pattern not found | | |")
             continue
         edit = (v['old'].strip().splitlines()[0][:60] + " -> " + v['new'].strip().splitlines()[0][:60]).replace("|", "/")
-        lines.append(f"| {k} | {v['check']} | `{edit}` | {'VIOLATION' if v['check_exit'] == 1 else 'inconclusive' if v['check_exit'] == 2 else 'MISSED'} | {v.get('suite', '-')} |")
+        lines.append(f"| {k} | {v['check']} | `{edit}` | {'VIOLATION' if v['check_exit'] == 1 else 'inconclusive' if v['check_exit'] == 2 else ('holds - equivalent w.r.t. the property (see tools/selftest.py)' if k in EQUIV else 'MISSED')} | {v.get('suite', '-')} |")
     killed = sum(1 for v in s.values() if v.get("check_exit") == 1)
-    st = f"\n\n{killed} of {len(s)} hand-written mutants are reported as VIOLATION by the check of their property (tools/selftest.py):\n\n| mutant | check | edit (first line) | check verdict | pinned test suite |\n|---|---|---|---|---|\n" + "\n".join(lines)
+    st = f"\n\n{killed} of {len(s)} hand-written mutants are reported as VIOLATION by the check of their property, {len([k for k in s if k in EQUIV and s[k]['check_exit'] != 1])} are equivalent w.r.t. the property (tools/selftest.py):\n\n| mutant | check | edit (first line) | check verdict | pinned test suite |\n|---|---|---|---|---|\n" + "\n".join(lines)
 d = open(os.path.join(V, "DESIGN.md")).read()
 a, b = "<!-- SEED-TABLE-BEGIN -->", "<!-- SEED-TABLE-END -->"
 assert a in d and b in d
